@@ -19,7 +19,7 @@ pub fn meta() -> Meta {
         rule: "seeded programs from the grammar generator WITHOUT layout restrictions (labels referenced in any letter case, DEC with every operand shape, .ORG to any address relative to the current one, images from 0 to beyond 256 bytes built from .BYTE/.DB/.DW/.ORG mixes, 0-40 labels, header-only files); every program the real parser accepts is compiled and loaded (Machine::load and Machine::new_with_program) under catch_unwind; a sample is written to disk and pushed through the real binary: `2a-emulator verify` exit 0 must imply that `2a-emulator run <file> 0` does not die from a panic. distinct_nontrivial counts distinct (layout class, image-size bucket, uses mixed-case refs, uses DEC memory forms) classes of accepted programs",
         exhaustive: false,
         assumptions: vec!["panics are classified by the layout class of the program (well-formed / backward .ORG / image larger than the RAM, decided by the harness's own layout rules) and the panic site, so a known finding never hides a crash on a well-formed program"],
-        floors: vec![("accepted_programs", 20_000), ("compiled_and_loaded", 10_000), ("programs_with_backward_org", 500), ("programs_larger_than_ram", 500), ("programs_with_mixed_case_refs", 1_000), ("programs_with_dec_memory", 1_000), ("cli_pairs", 40), ("texts_with_undefined_label", 5_000)],
+        floors: vec![("accepted_programs", 20_000), ("compiled_and_loaded", 10_000), ("programs_with_backward_org", 500), ("programs_larger_than_ram", 500), ("programs_with_mixed_case_refs", 1_000), ("programs_with_dec_memory", 1_000), ("cli_pairs", 40), ("texts_with_undefined_label", 5_000), ("texts_with_duplicate_definitions", 5_000)],
     }
 }
 
@@ -55,6 +55,17 @@ fn check_inprocess(asm: &Asm, rep: &mut Report) -> Option<(String, String)> {
         m
     }) {
         return Some((format!("C06:{}:panic:{}", class, p.site()), format!("Machine::load panicked: {} ({}:{})", p.msg, p.file, p.line)));
+    }
+    // loading a program in the interactive session also renders the listing of the byte code
+    let bc3 = bc2.clone();
+    if let Err(p) = catch(|| {
+        let mut n = format!("{}", bc3).len();
+        for (l, _) in &bc3.lines {
+            n += format!("{}", l).len();
+        }
+        n
+    }) {
+        return Some((format!("C06:{}:panic:{}", class, p.site()), format!("rendering the byte-code listing panicked: {} ({}:{})", p.msg, p.file, p.line)));
     }
     if let Err(p) = catch(|| Machine::new_with_program(MachineConfig::default(), bc2)) {
         return Some((format!("C06:{}:panic:{}", class, p.site()), format!("Machine::new_with_program panicked: {} ({}:{})", p.msg, p.file, p.line)));
@@ -128,6 +139,23 @@ pub fn run(ctx: &Ctx) -> Report {
                 1 => g.text.push_str(&format!("\n .ORG 40\n NOP\n .ORG {}\n", rng.below(40))),
                 2 => g.text.push_str("\n .ORG 0xEF\n NOP\n NOP\n NOP\n"),
                 3 => g.text.push_str("\n .ORG 255\n .DW 1, 2\n"),
+                6 | 7 => {
+                    // the same name defined twice (parser does not forbid it): label/label in another
+                    // case, label/.EQU, .EQU/.EQU
+                    let n = format!("dup_{}", rng.below(50));
+                    let a = match rng.below(3) {
+                        0 => format!("{}:", n),
+                        1 => format!("{}:", n.to_uppercase()),
+                        _ => format!(".EQU {} {}", n, rng.u8()),
+                    };
+                    let b = match rng.below(3) {
+                        0 => format!("{}:", n),
+                        1 => format!("{}:", n.to_uppercase()),
+                        _ => format!(".EQU {} {}", n.to_uppercase(), rng.u8()),
+                    };
+                    g.text.push_str(&format!("\n{}\n NOP\n{}\n JR {}\n", a, b, n));
+                    rep.inc("texts_with_duplicate_definitions");
+                }
                 4 | 5 => {
                     // a reference to a label that is defined nowhere, in every operand position that
                     // can hold one: a correct parser rejects the text (then nothing is claimed), but if
